@@ -148,3 +148,14 @@ claim('C12',
       'open known finding (zero-padded polygon vertices), two defects repaired by fix: commits.',
       'symbolic execution of the real Python through astropy QTable with object payloads + SMT (z3)',
       'DESIGN.md section 5 C12')
+claim('C09',
+      'Bounded symbolic check of the DS9 serialiser and parser: for all ten DS9 shapes in the image frame every coordinate '
+      'and size is symbolic (the decimal text written by the real writer is a token whose value is the true value rounded '
+      'to the requested precision; the real parser - regexes, splitting, templates - runs on the real text), and the '
+      'solver proves every parsed parameter within half a printed unit, same class, include sense, text/tags/flags, '
+      'determinism, parse-serialise-parse fixed point, unsupported members skipped without altering the other lines; sky '
+      'regions in five celestial frames with concrete coordinates; lists exercising global-line hoisting and mixed frames.',
+      'Rotation angles and sky coordinates concrete (astropy float formatting); sizes / annulus gaps below 1.5 printed units '
+      'excluded; lists <= 3; two defects repaired by fix: commits.',
+      'symbolic execution of the real writer and parser with decimal tokens + SMT (z3 LRA/LIRA)',
+      'DESIGN.md section 5 C09')
